@@ -392,4 +392,41 @@ def getterList (E : Ext α) (t : Cls) (o : Obj α) (name : String) : Option (Lis
 def specEvaluate (E : Ext α) (t : Cls) (o : Obj α) (x : α) : α := evalFn E t o.fields x
 
 end
+/-! ## profile ↔ laser subscriptions (cherab/core/utility/notify.py `Notifier.add/remove`,
+cherab/core/laser/node.pyx `Laser.laser_profile` setter); lasers and profiles are numbered -/
+
+/-- `Notifier.add`: a callback that is already present is ignored -/
+def notifierAdd (subs : List Nat) (l : Nat) : List Nat := if l ∈ subs then subs else subs ++ [l]
+
+/-- `Notifier.remove`: the first matching reference is purged -/
+def notifierRemove (subs : List Nat) (l : Nat) : List Nat := subs.erase l
+
+structure Scene where
+  subs : Nat → List Nat      -- profile ↦ lasers whose `configure_geometry` is registered on its notifier
+  cur : Nat → Option Nat     -- laser ↦ the profile it holds
+
+def emptyScene : Scene := { subs := fun _ => [], cur := fun _ => none }
+
+/-- `laser.laser_profile = p`: unsubscribe from the profile held so far, store, subscribe to the new one -/
+def attach (s : Scene) (l p : Nat) : Scene :=
+  let subs1 : Nat → List Nat :=
+    match s.cur l with
+    | some q => fun x => if x = q then notifierRemove (s.subs q) l else s.subs x
+    | none => s.subs
+  { subs := fun x => if x = p then notifierAdd (subs1 p) l else subs1 x
+    cur := fun k => if k = l then some p else s.cur k }
+
+def attachAll (s : Scene) : List (Nat × Nat) → Scene
+  | [] => s
+  | (l, p) :: rest => attachAll (attach s l p) rest
+
+/-- the seeded variant: subscribe to the new profile *before* unsubscribing from the previous one -/
+def attachSwapped (s : Scene) (l p : Nat) : Scene :=
+  let subs1 : Nat → List Nat := fun x => if x = p then notifierAdd (s.subs p) l else s.subs x
+  let subs2 : Nat → List Nat :=
+    match s.cur l with
+    | some q => fun x => if x = q then notifierRemove (subs1 q) l else subs1 x
+    | none => subs1
+  { subs := subs2, cur := fun k => if k = l then some p else s.cur k }
+
 end Cherab.Laser
